@@ -36,6 +36,8 @@ func check(prop, tier string) int {
 	switch prop {
 	case "C03", "C04", "C07", "C08":
 		code, err = rt.RunSeq(prop, tier)
+	case "C05", "C06":
+		code, err = rt.RunConc(prop, tier)
 	default:
 		fmt.Fprintln(os.Stderr, "no check for", prop)
 		return 2
